@@ -28,7 +28,8 @@ Record nobs := mkNobs {
   o_iter : list name;                          (* sorted *)
   o_names : list name;                         (* names(all=True), sorted *)
   o_nad : list (name * desc);                  (* namesAndDescriptions(all=True), sorted *)
-  o_tagq : list (option tval * option tval);   (* per tag: queryTaggedValue / getTaggedValue (None = KeyError) *)
+  o_tagq : list (option tval * option tval);   (* per tag: queryTaggedValue(tag, sentinel) (None = sentinel came back) /
+                                                  getTaggedValue (None = KeyError); Some TNone = the value None *)
   o_tags : list tag;                           (* getTaggedValueTags, sorted *)
   o_v1_ran : list nat; o_v1_exc : option nat;  (* validateInvariants(ob): called, whose Invalid came out *)
   o_v2_ran : list nat; o_v2_errs : list nat; o_v2_raised : bool   (* validateInvariants(ob, []) *)
@@ -55,6 +56,7 @@ Definition tval_eqb (a b : tval) : bool :=
   match a, b with
   | TV x, TV y => Nat.eqb x y
   | TInvs x, TInvs y => lnat_eqb x y
+  | TNone, TNone => true
   | _, _ => false
   end.
 Definition otval_eqb := option_eqb tval_eqb.
